@@ -3,7 +3,7 @@ from __future__ import annotations
 
 import ast
 
-from ..engine import AnalysisError, PropertySpec, norm
+from ..engine import AnalysisError, MechanismMissing, PropertySpec, norm
 from ..pyutil import call_name, calls, is_name, walk_local
 
 AR = "src/pymoca/backends/casadi/alias_relation.py"
@@ -102,7 +102,7 @@ def r17_1(ctx, rep):
            "remove(a) must delete every member of class(a) and class(-a) from _aliases and _canonical_variables_map and drop the canonical "
            "entry (union=%s, deleted from %s, canonical=%s)" % (union_ok, sorted(dels), canon))
     if n < 2:
-        raise AnalysisError(R, "fewer than 2 paired-store loops found in add()")
+        raise MechanismMissing(R, "fewer than 2 paired-store loops found in add()")
 
 
 def _inplace_mutated_attrs(cls_node):
@@ -143,7 +143,7 @@ def r17_2(ctx, rep):
         if isinstance(s, ast.Assign) and isinstance(s.value, ast.Call) and (call_name(s.value) or "").endswith(CLS):
             cvar = s.targets[0].id
     if cvar is None or len(attrs) < 3:
-        raise AnalysisError(R, "copy() does not allocate an AliasRelation, or __init__ has fewer than 3 attributes")
+        raise MechanismMissing(R, "copy() does not allocate an AliasRelation, or __init__ has fewer than 3 attributes")
     written = set()
     for s in walk_local(cp):
         for t in ast.walk(s) if isinstance(s, (ast.Assign, ast.AugAssign)) else []:
@@ -165,7 +165,7 @@ def r17_3(ctx, rep):
     cls = ctx.cls(AR, CLS, R)
     mutated, returns = _inplace_mutated_attrs(cls)
     if "_aliases" not in mutated:
-        raise AnalysisError(R, "expected in-place mutation of the sets stored in _aliases (aliases |= ...) was not found")
+        raise MechanismMissing(R, "expected in-place mutation of the sets stored in _aliases (aliases |= ...) was not found")
     cp = ctx.func(AR, CLS + ".copy", R)
     for attr in sorted(mutated):
         ok = False
